@@ -312,7 +312,7 @@ func (rw *rewriter) file(fset *token.FileSet, f *ast.File, path string) (poolRef
 		if !touched[name] {
 			continue
 		}
-		keep := map[string]string{"time": "Nanosecond", "runtime": "GOOS", "math/rand": "NewSource", "math/rand/v2": "NewPCG"}[p]
+		keep := map[string]string{"time": "Nanosecond", "runtime": "GOOS", "sync": "NewCond", "math/rand": "NewSource", "math/rand/v2": "NewPCG"}[p]
 		if keep == "" {
 			continue
 		}
@@ -388,6 +388,14 @@ func (rw *rewriter) retime(f *ast.File) map[string]bool {
 		case "runtime":
 			switch sel.Sel.Name {
 			case "SetFinalizer", "Gosched", "GOMAXPROCS", "NumCPU":
+				touched[id.Name] = true
+				id.Name = "simrt"
+			}
+		case "sync":
+			switch sel.Sel.Name {
+			case "OnceFunc", "OnceValue", "OnceValues":
+				// like once.Do(f): no inner yield while f runs, or a second caller
+				// would park inside the real sync.Once
 				touched[id.Name] = true
 				id.Name = "simrt"
 			}
@@ -636,19 +644,31 @@ func (rw *rewriter) recvExprs(f *ast.File) {
 							"(*time.Ticker).Stop": "TickerStop", "(*time.Ticker).Reset": "TickerReset",
 							"(*sync.WaitGroup).Add": "WGAdd", "(*sync.WaitGroup).Done": "WGDone", "(*sync.WaitGroup).Wait": "WGWait"}[fn.FullName()]
 						if cn := map[string]string{"(*sync.Cond).Wait": "CondWaitOn", "(*sync.Cond).Signal": "CondSignal", "(*sync.Cond).Broadcast": "CondBroadcast"}[fn.FullName()]; cn != "" {
-							// only for a plain sync.Cond receiver (a promoted method of an
-							// embedded Cond keeps the older, weaker treatment of Wait)
-							t := rw.info.TypeOf(sel.X)
-							if pt, isPtr := t.(*types.Pointer); isPtr {
-								t = pt.Elem()
-							}
-							if nt, ok := t.(*types.Named); ok && nt.Obj().Pkg() != nil && nt.Obj().Pkg().Path() == "sync" && nt.Obj().Name() == "Cond" {
-								name = cn
-							}
+							name = cn
 						}
 						if name != "" {
-							recv := sel.X
-							if _, isPtr := rw.info.TypeOf(recv).(*types.Pointer); !isPtr {
+							// The receiver, spelled out: a method promoted from an
+							// embedded field (p.Wait() with a sync.Cond embedded in p's
+							// type) is reached through the fields on the selection's path.
+							var recv ast.Expr = sel.X
+							rt := rw.info.TypeOf(sel.X)
+							path := si.Index()
+							for _, ix := range path[:len(path)-1] {
+								if pt, isPtr := rt.Underlying().(*types.Pointer); isPtr {
+									rt = pt.Elem()
+								}
+								st, isStruct := rt.Underlying().(*types.Struct)
+								if !isStruct || ix >= st.NumFields() {
+									name = ""
+									break
+								}
+								recv = &ast.SelectorExpr{X: recv, Sel: ast.NewIdent(st.Field(ix).Name())}
+								rt = st.Field(ix).Type()
+							}
+							if name == "" {
+								return true
+							}
+							if _, isPtr := rt.Underlying().(*types.Pointer); !isPtr {
 								recv = &ast.UnaryExpr{Op: token.AND, X: recv}
 							}
 							call.Fun = simrtFn(name)
@@ -773,6 +793,47 @@ func lockKind(e ast.Expr) int {
 		}
 	}
 	return 0
+}
+
+// replaceContinues replaces every unlabelled continue that binds outside
+// stmts (not inside a nested loop or function literal) by mk().
+func replaceContinues(stmts []ast.Stmt, mk func() ast.Stmt) {
+	var in func(s ast.Stmt)
+	list := func(l []ast.Stmt) {
+		for i, s := range l {
+			if b, ok := s.(*ast.BranchStmt); ok && b.Tok == token.CONTINUE && b.Label == nil {
+				l[i] = mk()
+				continue
+			}
+			in(s)
+		}
+	}
+	in = func(s ast.Stmt) {
+		switch st := s.(type) {
+		case *ast.BlockStmt:
+			list(st.List)
+		case *ast.IfStmt:
+			list(st.Body.List)
+			if st.Else != nil {
+				in(st.Else)
+			}
+		case *ast.SwitchStmt:
+			for _, c := range st.Body.List {
+				list(c.(*ast.CaseClause).Body)
+			}
+		case *ast.TypeSwitchStmt:
+			for _, c := range st.Body.List {
+				list(c.(*ast.CaseClause).Body)
+			}
+		case *ast.SelectStmt:
+			for _, c := range st.Body.List {
+				list(c.(*ast.CommClause).Body)
+			}
+		case *ast.LabeledStmt:
+			in(st.Stmt)
+		}
+	}
+	list(stmts)
 }
 
 func hasUnlabeledContinue(stmts []ast.Stmt) bool {
@@ -921,13 +982,41 @@ func (rw *rewriter) instrument(f *ast.File) int {
 			if hasDefault {
 				ncomm--
 			}
-			ordered := ncomm >= 2 // which of several ready cases proceeds is decided by the tape
+			ordered := ncomm >= 1 // every select with a communication case is polled case by case (order from the tape when there are several)
 			term := terminating(st)
-			if rw.typed && (!hasDefault || ordered) && !labelled && len(st.Body.List) > 0 && !hasUnlabeledContinue(bodies) {
+			if rw.typed && (!hasDefault || ordered) && !labelled && len(st.Body.List) > 0 {
 				// The select now sits in a loop, but its channel operands and send
 				// values must still be evaluated exactly once (a time.After in a
 				// case would otherwise start a new timer at every retry).
 				var pre []ast.Stmt
+				// A "continue" in a case body would now bind to that loop: it
+				// becomes "flag = true; break <our loop>", and "if flag { continue }"
+				// follows the loop, where it binds to the caller's loop again.
+				selID := strconv.Itoa(n)
+				n++
+				selLabel := ast.NewIdent("simrtSelLoop" + selID)
+				var contFlag *ast.Ident
+				if hasUnlabeledContinue(bodies) {
+					contFlag = ast.NewIdent("simrtCont" + selID)
+					pre = append(pre, &ast.AssignStmt{Lhs: []ast.Expr{contFlag}, Tok: token.DEFINE, Rhs: []ast.Expr{ast.NewIdent("false")}})
+					for _, c := range st.Body.List {
+						replaceContinues(c.(*ast.CommClause).Body, func() ast.Stmt {
+							return &ast.BlockStmt{List: []ast.Stmt{
+								&ast.AssignStmt{Lhs: []ast.Expr{contFlag}, Tok: token.ASSIGN, Rhs: []ast.Expr{ast.NewIdent("true")}},
+								&ast.BranchStmt{Tok: token.BREAK, Label: selLabel},
+							}}
+						})
+					}
+				}
+				after := func(out []ast.Stmt) []ast.Stmt {
+					if contFlag != nil {
+						out = append(out, &ast.IfStmt{Cond: contFlag, Body: &ast.BlockStmt{List: []ast.Stmt{&ast.BranchStmt{Tok: token.CONTINUE}}}})
+					}
+					if term {
+						out = append(out, unreachable())
+					}
+					return out
+				}
 				hoist := func(e ast.Expr) ast.Expr {
 					if id, ok := e.(*ast.Ident); ok && id.Name != "nil" {
 						return e
@@ -963,13 +1052,13 @@ func (rw *rewriter) instrument(f *ast.File) int {
 					//	}
 					//	break simrtSelLoopN
 					// }
-					id := strconv.Itoa(n)
-					n++
-					label := ast.NewIdent("simrtSelLoop" + id)
+					id := selID
+					label := selLabel
 					try, start := ast.NewIdent("simrtTry"+id), ast.NewIdent("simrtStart"+id)
 					nlit := &ast.BasicLit{Kind: token.INT, Value: strconv.Itoa(ncomm)}
 					var none []ast.Stmt
 					var cases []ast.Stmt
+					var recvChans []ast.Expr // per case: the channel of a receive case, nil otherwise
 					i := 0
 					for _, c := range st.Body.List {
 						cc := c.(*ast.CommClause)
@@ -977,16 +1066,67 @@ func (rw *rewriter) instrument(f *ast.File) int {
 							none = append(append(none, cc.Body...), &ast.BranchStmt{Tok: token.BREAK, Label: label})
 							continue
 						}
-						one := &ast.SelectStmt{Body: &ast.BlockStmt{List: []ast.Stmt{
-							cc,
-							&ast.CommClause{Body: []ast.Stmt{&ast.BranchStmt{Tok: token.CONTINUE}}},
-						}}}
+						// one case: "if <non-blocking attempt> { body } else { continue }";
+						// the attempts (simrt.TrySend/TryRecv) also complete the
+						// rendezvous with a simulated task on an unbuffered channel
+						next := &ast.BlockStmt{List: []ast.Stmt{&ast.BranchStmt{Tok: token.CONTINUE}}}
+						var one ast.Stmt
+						sfx := id + "_" + strconv.Itoa(i)
+						got := ast.NewIdent("simrtGot" + sfx)
+						tryRecv := func(u ast.Expr) ast.Expr {
+							return &ast.CallExpr{Fun: simrtFn("TryRecv"), Args: []ast.Expr{u.(*ast.UnaryExpr).X}}
+						}
+						switch cm := cc.Comm.(type) {
+						case *ast.SendStmt:
+							recvChans = append(recvChans, ast.NewIdent("nil"))
+							one = &ast.IfStmt{Cond: &ast.CallExpr{Fun: simrtFn("TrySend"), Args: []ast.Expr{cm.Chan, cm.Value}}, Body: &ast.BlockStmt{List: cc.Body}, Else: next}
+						case *ast.ExprStmt:
+							x := cm.X
+							for {
+								if p, ok := x.(*ast.ParenExpr); ok {
+									x = p.X
+									continue
+								}
+								break
+							}
+							recvChans = append(recvChans, x.(*ast.UnaryExpr).X)
+							one = &ast.IfStmt{
+								Init: &ast.AssignStmt{Lhs: []ast.Expr{ast.NewIdent("_"), ast.NewIdent("_"), got}, Tok: token.DEFINE, Rhs: []ast.Expr{tryRecv(x)}},
+								Cond: got, Body: &ast.BlockStmt{List: cc.Body}, Else: next}
+						case *ast.AssignStmt:
+							v, ok := ast.NewIdent("simrtV"+sfx), ast.NewIdent("_")
+							rhs := []ast.Expr{v}
+							if len(cm.Lhs) == 2 {
+								ok = ast.NewIdent("simrtOk" + sfx)
+								rhs = append(rhs, ok)
+							}
+							x := cm.Rhs[0]
+							for {
+								if p, isP := x.(*ast.ParenExpr); isP {
+									x = p.X
+									continue
+								}
+								break
+							}
+							recvChans = append(recvChans, x.(*ast.UnaryExpr).X)
+							bind := &ast.AssignStmt{Lhs: cm.Lhs, Tok: cm.Tok, Rhs: rhs}
+							one = &ast.IfStmt{
+								Init: &ast.AssignStmt{Lhs: []ast.Expr{v, ok, got}, Tok: token.DEFINE, Rhs: []ast.Expr{tryRecv(x)}},
+								Cond: got, Body: &ast.BlockStmt{List: append([]ast.Stmt{bind}, cc.Body...)}, Else: next}
+						}
 						cases = append(cases, &ast.CaseClause{List: []ast.Expr{&ast.BasicLit{Kind: token.INT, Value: strconv.Itoa(i)}}, Body: []ast.Stmt{one}})
 						i++
 					}
 					if !hasDefault {
+						// nothing ready: park, registered as a receiver on the
+						// unbuffered channels of the receive cases; a case served by
+						// a sender in the meantime is tried first
+						served := ast.NewIdent("simrtServed" + id)
 						none = []ast.Stmt{
-							&ast.IfStmt{Cond: &ast.UnaryExpr{Op: token.NOT, X: &ast.CallExpr{Fun: simrtFn("Blocked")}}, Body: &ast.BlockStmt{List: []ast.Stmt{simrtCall("RealBlock")}}},
+							&ast.IfStmt{
+								Init: &ast.AssignStmt{Lhs: []ast.Expr{served}, Tok: token.DEFINE, Rhs: []ast.Expr{&ast.CallExpr{Fun: simrtFn("SelectBlocked"), Args: recvChans}}},
+								Cond: &ast.BinaryExpr{X: served, Op: token.GEQ, Y: &ast.BasicLit{Kind: token.INT, Value: "0"}},
+								Body: &ast.BlockStmt{List: []ast.Stmt{&ast.AssignStmt{Lhs: []ast.Expr{start}, Tok: token.ASSIGN, Rhs: []ast.Expr{served}}}}},
 							&ast.AssignStmt{Lhs: []ast.Expr{try}, Tok: token.ASSIGN, Rhs: []ast.Expr{&ast.UnaryExpr{Op: token.SUB, X: &ast.BasicLit{Kind: token.INT, Value: "1"}}}},
 							&ast.BranchStmt{Tok: token.CONTINUE},
 						}
@@ -1001,27 +1141,22 @@ func (rw *rewriter) instrument(f *ast.File) int {
 						Post: &ast.IncDecStmt{X: try, Tok: token.INC},
 						Body: &ast.BlockStmt{List: body},
 					}}
-					out := append(pre, loop)
-					if term {
-						out = append(out, unreachable())
-					}
-					return []ast.Stmt{&ast.BlockStmt{List: out}}
+					return []ast.Stmt{&ast.BlockStmt{List: after(append(pre, loop))}}
 				}
 				again := &ast.CommClause{Body: []ast.Stmt{
 					&ast.IfStmt{Cond: &ast.UnaryExpr{Op: token.NOT, X: &ast.CallExpr{Fun: simrtFn("Blocked")}}, Body: &ast.BlockStmt{List: []ast.Stmt{simrtCall("RealBlock")}}},
 					&ast.BranchStmt{Tok: token.CONTINUE},
 				}}
 				st.Body.List = append(st.Body.List, again)
-				loop := &ast.ForStmt{Body: &ast.BlockStmt{List: []ast.Stmt{st, &ast.BranchStmt{Tok: token.BREAK}}}}
+				var loop ast.Stmt = &ast.ForStmt{Body: &ast.BlockStmt{List: []ast.Stmt{st, &ast.BranchStmt{Tok: token.BREAK}}}}
+				if contFlag != nil {
+					loop = &ast.LabeledStmt{Label: selLabel, Stmt: loop}
+				}
 				if len(pre) == 0 && !term {
 					return []ast.Stmt{loop}
 				}
-				// a block keeps the temporaries local (the statement may be labelled)
-				out := append(pre, loop)
-				if term {
-					out = append(out, unreachable())
-				}
-				return []ast.Stmt{&ast.BlockStmt{List: out}}
+				// a block keeps the temporaries local
+				return []ast.Stmt{&ast.BlockStmt{List: after(append(pre, loop))}}
 			}
 		case *ast.GoStmt:
 			// go f(args) -> simrt.Spawn(func() { f(args) }) with the arguments
